@@ -3,6 +3,7 @@ package main
 // SMT term IR: sorts, terms, light simplification, SMT-LIB printing.
 
 import (
+	"sync/atomic"
 	"fmt"
 	"math/big"
 	"sort"
@@ -108,7 +109,7 @@ type Term struct {
 	S     *Sort
 	Bound []*Term
 	Pats  [][]*Term
-	str   string
+	str   atomic.Pointer[string] // memoized SMT text (terms are shared between the solver goroutines)
 	size  int
 }
 
@@ -512,8 +513,8 @@ func (t *Term) Size() int {
 }
 
 func (t *Term) String() string {
-	if t.str != "" {
-		return t.str
+	if p := t.str.Load(); p != nil {
+		return *p
 	}
 	var s string
 	switch t.Op {
@@ -554,7 +555,7 @@ func (t *Term) String() string {
 	default:
 		s = "(" + t.Op + " " + joinTerms(t.Args) + ")"
 	}
-	t.str = s
+	t.str.Store(&s)
 	return s
 }
 
